@@ -1,5 +1,499 @@
 /- Helper lemmas for the I/O models (Mpir/Model/Io.lean). -/
 import MpirProofs.Lemmas.Base
 import Mpir.Model.Io
+import Mathlib.Tactic.Ring
+import Mathlib.Tactic.Linarith
 namespace Mpir.Io
+open Mpir
+
+/-! ### bytes -/
+
+theorem Bytes_nil : Bytes [] := by intro b hb; cases hb
+theorem Bytes_cons {b : Nat} {l : List Nat} : Bytes (b :: l) ↔ b < 256 ∧ Bytes l := by
+  unfold Bytes; simp
+theorem Bytes_append {a b : List Nat} : Bytes (a ++ b) ↔ Bytes a ∧ Bytes b := by
+  unfold Bytes; simp only [List.mem_append]
+  constructor
+  · intro h; exact ⟨fun x hx => h x (Or.inl hx), fun x hx => h x (Or.inr hx)⟩
+  · rintro ⟨h1, h2⟩ x (hx | hx); exact h1 x hx; exact h2 x hx
+theorem Bytes_reverse {a : List Nat} : Bytes a.reverse ↔ Bytes a := by unfold Bytes; simp
+theorem Bytes_take {l : List Nat} (h : Bytes l) (n : Nat) : Bytes (l.take n) :=
+  fun x hx => h x (List.mem_of_mem_take hx)
+theorem Bytes_drop {l : List Nat} (h : Bytes l) (n : Nat) : Bytes (l.drop n) :=
+  fun x hx => h x (List.mem_of_mem_drop hx)
+theorem Bytes_replicate_zero (n : Nat) : Bytes (List.replicate n 0) := by
+  intro b hb; rw [List.mem_replicate] at hb; omega
+
+@[simp] theorem leBytes_length (n v : Nat) : (leBytes n v).length = n := by
+  induction n generalizing v with
+  | zero => rfl
+  | succ n ih => simp [leBytes, ih]
+
+theorem leBytes_bytes (n v : Nat) : Bytes (leBytes n v) := by
+  induction n generalizing v with
+  | zero => exact Bytes_nil
+  | succ n ih => exact Bytes_cons.mpr ⟨Nat.mod_lt _ (by decide), ih _⟩
+
+@[simp] theorem beBytes_length (n v : Nat) : (beBytes n v).length = n := by simp [beBytes]
+theorem beBytes_bytes (n v : Nat) : Bytes (beBytes n v) := Bytes_reverse.mpr (leBytes_bytes n v)
+
+@[simp] theorem leVal_nil : leVal [] = 0 := rfl
+@[simp] theorem leVal_cons (b : Nat) (l : List Nat) : leVal (b :: l) = b + 256 * leVal l := rfl
+
+theorem leVal_append (a b : List Nat) : leVal (a ++ b) = leVal a + 256 ^ a.length * leVal b := by
+  induction a with
+  | nil => simp
+  | cons x xs ih => simp only [List.cons_append, leVal_cons, ih, List.length_cons, pow_succ]; ring
+
+theorem leVal_lt {l : List Nat} (h : Bytes l) : leVal l < 256 ^ l.length := by
+  induction l with
+  | nil => simp
+  | cons x xs ih =>
+    have ⟨hx, hxs⟩ := Bytes_cons.mp h
+    have := ih hxs
+    simp only [leVal_cons, List.length_cons, pow_succ]
+    omega
+
+theorem leVal_leBytes (n v : Nat) : leVal (leBytes n v) = v % 256 ^ n := by
+  induction n generalizing v with
+  | zero => simp [leBytes, Nat.mod_one]
+  | succ n ih =>
+    simp only [leBytes, leVal_cons, ih, pow_succ]
+    rw [Nat.mul_comm (256 ^ n) 256, Nat.mod_mul]
+
+theorem leBytes_leVal {l : List Nat} (h : Bytes l) : leBytes l.length (leVal l) = l := by
+  induction l with
+  | nil => rfl
+  | cons x xs ih =>
+    have ⟨hx, hxs⟩ := Bytes_cons.mp h
+    simp only [List.length_cons, leBytes, leVal_cons]
+    have h1 : (x + 256 * leVal xs) % 256 = x := by omega
+    have h2 : (x + 256 * leVal xs) / 256 = leVal xs := by omega
+    rw [h1, h2, ih hxs]
+
+theorem leBytes_add (n m v : Nat) : leBytes (n + m) v = leBytes n v ++ leBytes m (v / 256 ^ n) := by
+  induction n generalizing v with
+  | zero => simp [leBytes]
+  | succ n ih =>
+    rw [Nat.succ_add]
+    simp only [leBytes, List.cons_append, ih, pow_succ]
+    rw [Nat.div_div_eq_div_mul, Nat.mul_comm 256]
+
+theorem leBytes_zero (n : Nat) : leBytes n 0 = List.replicate n 0 := by
+  induction n with
+  | zero => rfl
+  | succ n ih => simp [leBytes, ih, List.replicate_succ]
+
+theorem leBytes_of_lt {n v : Nat} (m : Nat) (h : v < 256 ^ n) :
+    leBytes (n + m) v = leBytes n v ++ List.replicate m 0 := by
+  rw [leBytes_add, Nat.div_eq_of_lt h, leBytes_zero]
+
+theorem leVal_replicate_zero (n : Nat) : leVal (List.replicate n 0) = 0 := by
+  induction n with
+  | zero => rfl
+  | succ n ih => simp [List.replicate_succ, ih]
+
+theorem beVal_append (a b : List Nat) : beVal (a ++ b) = beVal a * 256 ^ b.length + beVal b := by
+  simp only [beVal, List.reverse_append, leVal_append, List.length_reverse]; ring
+
+theorem beVal_replicate_zero (n : Nat) : beVal (List.replicate n 0) = 0 := by
+  simp [beVal, leVal_replicate_zero]
+
+theorem beVal_beBytes (n v : Nat) : beVal (beBytes n v) = v % 256 ^ n := by
+  simp [beVal, beBytes, leVal_leBytes]
+
+theorem beVal_lt {l : List Nat} (h : Bytes l) : beVal l < 256 ^ l.length := by
+  have := leVal_lt (Bytes_reverse.mpr h); simpa [beVal] using this
+
+theorem beBytes_of_lt {n v : Nat} (m : Nat) (h : v < 256 ^ n) :
+    beBytes (n + m) v = List.replicate m 0 ++ beBytes n v := by
+  simp [beBytes, leBytes_of_lt m h]
+
+/-! ### bit length -/
+
+theorem bitLen_zero : bitLen 0 = 0 := by simp [bitLen]
+
+theorem lt_two_pow_bitLen (v : Nat) : v < 2 ^ bitLen v := by
+  unfold bitLen; split
+  · subst_vars; simp
+  · exact Nat.lt_log2_self
+
+theorem two_pow_le_of_bitLen {v : Nat} (h : v ≠ 0) : 2 ^ (bitLen v - 1) ≤ v := by
+  unfold bitLen; simp only [h, if_false, Nat.add_sub_cancel]; exact Nat.log2_self_le h
+
+theorem bitLen_pos {v : Nat} (h : v ≠ 0) : 0 < bitLen v := by unfold bitLen; simp [h]
+
+/-- characterisation: `2^k ≤ v < 2^(k+1)` gives `bitLen v = k+1` -/
+theorem bitLen_eq {v k : Nat} (h1 : 2 ^ k ≤ v) (h2 : v < 2 ^ (k + 1)) : bitLen v = k + 1 := by
+  have hv : v ≠ 0 := by have := Nat.two_pow_pos k; omega
+  unfold bitLen; simp only [hv, if_false]
+  congr 1
+  have a : v.log2 < k + 1 := (Nat.log2_lt hv).mpr h2
+  have b : ¬ v.log2 < k := by
+    intro hlt; have := (Nat.log2_lt hv).mp hlt; omega
+  omega
+
+theorem bitLen_le_iff {v k : Nat} : bitLen v ≤ k ↔ v < 2 ^ k := by
+  by_cases hv : v = 0
+  · subst hv; simp [bitLen_zero]
+  · unfold bitLen; simp only [hv, if_false]
+    rw [← Nat.log2_lt hv]; omega
+
+theorem lt_pow_byteLen (v : Nat) : v < 256 ^ byteLen v := by
+  have h := lt_two_pow_bitLen v
+  have : (256 : Nat) ^ byteLen v = 2 ^ (8 * byteLen v) := by
+    rw [show (256 : Nat) = 2 ^ 8 by norm_num, ← pow_mul]
+  rw [this]
+  refine lt_of_lt_of_le h (Nat.pow_le_pow_right (by decide) ?_)
+  unfold byteLen; omega
+
+theorem byteLen_zero : byteLen 0 = 0 := by simp [byteLen, bitLen_zero]
+
+/-! ### limb memory images -/
+
+theorem B_eq_256 : B = 256 ^ 8 := by unfold B; norm_num
+theorem B_eq_2 : B = 2 ^ 64 := rfl
+
+@[simp] theorem limbsToBytes_nil : limbsToBytes [] = [] := rfl
+@[simp] theorem limbsToBytes_cons (x : Nat) (xs : List Nat) :
+    limbsToBytes (x :: xs) = leBytes 8 x ++ limbsToBytes xs := by simp [limbsToBytes]
+theorem limbsToBytes_append (a b : List Nat) : limbsToBytes (a ++ b) = limbsToBytes a ++ limbsToBytes b := by
+  simp [limbsToBytes]
+@[simp] theorem limbsToBytes_length (d : List Nat) : (limbsToBytes d).length = 8 * d.length := by
+  induction d with
+  | nil => rfl
+  | cons x xs ih => simp [ih]; omega
+theorem limbsToBytes_bytes (d : List Nat) : Bytes (limbsToBytes d) := by
+  induction d with
+  | nil => exact Bytes_nil
+  | cons x xs ih => rw [limbsToBytes_cons]; exact Bytes_append.mpr ⟨leBytes_bytes _ _, ih⟩
+
+theorem bytesToLimbs_append8 {a : List Nat} (ha : a.length = 8) (b : List Nat) :
+    bytesToLimbs (a ++ b) = leVal a :: bytesToLimbs b := by
+  match a, ha with
+  | [b0, b1, b2, b3, b4, b5, b6, b7], _ => simp [bytesToLimbs]
+
+theorem bytesToLimbs_nil : bytesToLimbs [] = [] := by simp [bytesToLimbs]
+
+theorem bytesToLimbs_limbsToBytes {d : List Nat} (h : Limbs d) : bytesToLimbs (limbsToBytes d) = d := by
+  induction d with
+  | nil => simp [bytesToLimbs_nil]
+  | cons x xs ih =>
+    have ⟨hx, hxs⟩ := Limbs_cons.mp h
+    rw [limbsToBytes_cons, bytesToLimbs_append8 (by simp), ih hxs, leVal_leBytes, ← B_eq_256, Nat.mod_eq_of_lt hx]
+
+/-- a byte string of `8k` bytes splits as `k` groups of 8 -/
+theorem bytesToLimbs_append (k : Nat) : ∀ (a b : List Nat), a.length = 8 * k →
+    bytesToLimbs (a ++ b) = bytesToLimbs a ++ bytesToLimbs b := by
+  induction k with
+  | zero => intro a b ha; have : a = [] := List.eq_nil_of_length_eq_zero (by omega); subst this; simp [bytesToLimbs_nil]
+  | succ k ih =>
+    intro a b ha
+    have h8 : (a.take 8).length = 8 := by simp; omega
+    have hd : (a.drop 8).length = 8 * k := by simp; omega
+    rw [← List.take_append_drop 8 a, List.append_assoc, bytesToLimbs_append8 h8, bytesToLimbs_append8 h8,
+      ih _ _ hd, List.cons_append]
+
+theorem bytesToLimbs_length (k : Nat) : ∀ (a : List Nat), a.length = 8 * k → (bytesToLimbs a).length = k := by
+  induction k with
+  | zero => intro a ha; have : a = [] := List.eq_nil_of_length_eq_zero (by omega); subst this; simp [bytesToLimbs_nil]
+  | succ k ih =>
+    intro a ha
+    have h8 : (a.take 8).length = 8 := by simp; omega
+    have hd : (a.drop 8).length = 8 * k := by simp; omega
+    rw [← List.take_append_drop 8 a, bytesToLimbs_append8 h8, List.length_cons, ih _ hd]
+
+theorem Limbs_bytesToLimbs (k : Nat) : ∀ (a : List Nat), a.length = 8 * k → Bytes a → Limbs (bytesToLimbs a) := by
+  induction k with
+  | zero => intro a ha _; have : a = [] := List.eq_nil_of_length_eq_zero (by omega); subst this; simp [bytesToLimbs_nil, Limbs_nil]
+  | succ k ih =>
+    intro a ha hb
+    have h8 : (a.take 8).length = 8 := by simp; omega
+    have hd : (a.drop 8).length = 8 * k := by simp; omega
+    rw [← List.take_append_drop 8 a, bytesToLimbs_append8 h8]
+    refine Limbs_cons.mpr ⟨?_, ih _ hd (Bytes_drop hb 8)⟩
+    have := leVal_lt (Bytes_take hb 8); rw [h8] at this; rw [B_eq_256]; exact this
+
+theorem bswap_leVal {a : List Nat} (ha : a.length = 8) (hb : Bytes a) : bswap (leVal a) = beVal a := by
+  unfold bswap; rw [← ha, leBytes_leVal hb]
+
+theorem val_snoc (l : List Nat) (t : Nat) : val (l ++ [t]) = val l + B ^ l.length * t := by
+  rw [val_append]; simp
+
+/-- reversing the limb order and byte-swapping every limb of a memory image reads it big-endian -/
+theorem val_reverse_bswap (k : Nat) : ∀ (m : List Nat), m.length = 8 * k → Bytes m →
+    val ((bytesToLimbs m).map bswap).reverse = beVal m := by
+  induction k with
+  | zero => intro m hm _; have : m = [] := List.eq_nil_of_length_eq_zero (by omega); subst this; simp [bytesToLimbs_nil, beVal]
+  | succ k ih =>
+    intro m hm hb
+    have h8 : (m.take 8).length = 8 := by simp; omega
+    have hd : (m.drop 8).length = 8 * k := by simp; omega
+    have hl := bytesToLimbs_length k _ hd
+    conv_lhs => rw [← List.take_append_drop 8 m, bytesToLimbs_append8 h8]
+    rw [List.map_cons, List.reverse_cons, val_snoc, ih _ hd (Bytes_drop hb 8),
+      bswap_leVal h8 (Bytes_take hb 8), List.length_reverse, List.length_map, hl]
+    conv_rhs => rw [← List.take_append_drop 8 m, beVal_append, hd]
+    rw [B_eq_256, ← pow_mul]; ring
+
+theorem revSwap_eq : ∀ (n : Nat) (l : List Nat), l.length = n → revSwap l = (l.map bswap).reverse := by
+  intro n
+  induction n using Nat.strong_induction_on with
+  | _ n ih =>
+    intro l hl
+    match l, hl with
+    | [], _ => simp [revSwap]
+    | [x], _ => simp [revSwap]
+    | x :: y :: r, hl =>
+      rw [revSwap]
+      have hne : (y :: r) ≠ [] := by simp
+      have hlen : ((y :: r).dropLast).length < n := by simp at hl ⊢; omega
+      rw [ih _ hlen _ rfl]
+      conv_rhs => rw [List.map_cons, List.reverse_cons, ← List.dropLast_concat_getLast hne, List.map_append,
+        List.reverse_append]
+      simp
+
+theorem Limbs_map_bswap (l : List Nat) : Limbs (l.map bswap) := by
+  intro x hx
+  rw [List.mem_map] at hx
+  obtain ⟨y, _, rfl⟩ := hx
+  unfold bswap
+  have := beVal_lt (Bytes_reverse.mpr (leBytes_bytes 8 y))
+  have h2 := beVal_lt (leBytes_bytes 8 y)
+  simp at h2; rw [B_eq_256]; exact h2
+
+theorem Limbs_reverse {l : List Nat} : Limbs l.reverse ↔ Limbs l := by unfold Limbs; simp
+
+/-! ### normalisation -/
+
+/-- non-empty lists end in a non-zero limb -/
+def TopNZ (l : List Nat) : Prop := l ≠ [] → l.getLastD 0 ≠ 0
+
+theorem normalize_nil : normalize [] = [] := rfl
+
+theorem dropWhile_zero_spec (r : List Nat) :
+    ∃ k, r = List.replicate k 0 ++ r.dropWhile (· == 0) ∧ (r.dropWhile (· == 0)).headD 1 ≠ 0 := by
+  induction r with
+  | nil => exact ⟨0, by simp, by simp⟩
+  | cons x xs ih =>
+    by_cases hx : x = 0
+    · subst hx
+      obtain ⟨k, hk, hh⟩ := ih
+      refine ⟨k + 1, ?_, ?_⟩
+      · simp only [List.dropWhile_cons, beq_self_eq_true, if_true, List.replicate_succ, List.cons_append]
+        rw [← hk]
+      · simpa [List.dropWhile_cons] using hh
+    · refine ⟨0, by simp [hx], by simp [hx]⟩
+
+/-- `normalize l` is `l` without its high zero limbs -/
+theorem normalize_spec (l : List Nat) :
+    ∃ k, l = normalize l ++ List.replicate k 0 ∧ TopNZ (normalize l) := by
+  obtain ⟨k, hk, hh⟩ := dropWhile_zero_spec l.reverse
+  refine ⟨k, ?_, ?_⟩
+  · have := congrArg List.reverse hk
+    rw [List.reverse_reverse, List.reverse_append, List.reverse_replicate] at this
+    exact this
+  · intro hne
+    unfold normalize at hne ⊢
+    cases hd : l.reverse.dropWhile (· == 0) with
+    | nil => rw [hd] at hne; simp at hne
+    | cons a as =>
+      rw [hd] at hh
+      simp only [List.reverse_cons, List.getLastD_concat]
+      simpa using hh
+
+theorem val_replicate_zero (k : Nat) : val (List.replicate k 0) = 0 := by
+  induction k with
+  | zero => rfl
+  | succ k ih => simp [List.replicate_succ, ih]
+
+theorem val_normalize (l : List Nat) : val (normalize l) = val l := by
+  obtain ⟨k, hk, _⟩ := normalize_spec l
+  conv_rhs => rw [hk, val_append, val_replicate_zero]
+  omega
+
+theorem normalize_prefix (l : List Nat) : l.take (normSize l) = normalize l := by
+  obtain ⟨k, hk, _⟩ := normalize_spec l
+  unfold normSize
+  generalize normalize l = n at hk ⊢
+  subst hk; simp
+
+theorem normSize_le (l : List Nat) : normSize l ≤ l.length := by
+  obtain ⟨k, hk, _⟩ := normalize_spec l
+  unfold normSize
+  have := congrArg List.length hk
+  simp at this; omega
+
+theorem Limbs_normalize {l : List Nat} (h : Limbs l) : Limbs (normalize l) := by
+  rw [← normalize_prefix]; exact Limbs_take h _
+
+/-! ### natLimbs -/
+
+theorem natLimbs_zero : natLimbs 0 = [] := by rw [natLimbs]; simp
+theorem natLimbs_pos {v : Nat} (h : v ≠ 0) : natLimbs v = v % B :: natLimbs (v / B) := by
+  rw [natLimbs]; simp [h]
+
+theorem natLimbs_spec (v : Nat) : val (natLimbs v) = v ∧ Limbs (natLimbs v) ∧ TopNZ (natLimbs v) := by
+  induction v using Nat.strong_induction_on with
+  | _ v ih =>
+    by_cases hv : v = 0
+    · subst hv; rw [natLimbs_zero]; exact ⟨rfl, Limbs_nil, fun h => absurd rfl h⟩
+    · have hlt : v / B < v := Nat.div_lt_self (Nat.pos_of_ne_zero hv) (by unfold B; norm_num)
+      obtain ⟨h1, h2, h3⟩ := ih _ hlt
+      rw [natLimbs_pos hv]
+      refine ⟨?_, Limbs_cons.mpr ⟨Nat.mod_lt _ B_pos, h2⟩, ?_⟩
+      · rw [val_cons, h1]; exact Nat.mod_add_div v B
+      · intro _
+        by_cases hq : v / B = 0
+        · rw [hq, natLimbs_zero]; simp
+          have : v < B := by
+            rcases Nat.lt_or_ge v B with h | h
+            · exact h
+            · have := Nat.div_pos h B_pos; omega
+          rw [Nat.mod_eq_of_lt this]; exact hv
+        · have hne : natLimbs (v / B) ≠ [] := by rw [natLimbs_pos hq]; simp
+          have := h3 hne
+          rw [List.getLastD_cons]
+          cases hnl : natLimbs (v / B) with
+          | nil => exact absurd hnl hne
+          | cons a as => rw [hnl, List.getLastD_cons] at this; rw [List.getLastD_cons]; exact this
+
+theorem natLimbs_eq_nil {v : Nat} : natLimbs v = [] ↔ v = 0 := by
+  constructor
+  · intro h; have := (natLimbs_spec v).1; rw [h] at this; exact this.symm
+  · intro h; subst h; exact natLimbs_zero
+
+/-- bit length of a normalised limb vector -/
+theorem bitLen_val_snoc {l : List Nat} {t : Nat} (hl : Limbs l) (ht : t ≠ 0) :
+    bitLen (val (l ++ [t])) = 64 * l.length + bitLen t := by
+  rw [val_snoc]
+  have h1 := val_lt l hl
+  have h2 := lt_two_pow_bitLen t
+  have h3 := two_pow_le_of_bitLen ht
+  have hp := bitLen_pos ht
+  have hB : B ^ l.length = 2 ^ (64 * l.length) := by rw [B_eq_2, ← pow_mul]
+  rw [hB] at h1 ⊢
+  have e : 64 * l.length + bitLen t = (64 * l.length + (bitLen t - 1)) + 1 := by omega
+  rw [e]
+  apply bitLen_eq
+  · rw [pow_add]
+    calc 2 ^ (64 * l.length) * 2 ^ (bitLen t - 1) ≤ 2 ^ (64 * l.length) * t := Nat.mul_le_mul_left _ h3
+      _ ≤ _ := Nat.le_add_left _ _
+  · have : 64 * l.length + (bitLen t - 1) + 1 = 64 * l.length + bitLen t := by omega
+    rw [this, pow_add]
+    calc val l + 2 ^ (64 * l.length) * t < 2 ^ (64 * l.length) + 2 ^ (64 * l.length) * t := by omega
+      _ = 2 ^ (64 * l.length) * (t + 1) := by ring
+      _ ≤ _ := Nat.mul_le_mul_left _ h2
+
+/-! ### raw output -/
+
+theorem leBytes_add_mul (n x k : Nat) : leBytes n (x + 256 ^ n * k) = leBytes n x := by
+  induction n generalizing x k with
+  | zero => rfl
+  | succ n ih =>
+    simp only [leBytes, pow_succ]
+    have h1 : (x + 256 ^ n * 256 * k) % 256 = x % 256 := by
+      rw [Nat.mul_assoc, Nat.mul_comm 256 k, ← Nat.mul_assoc]; exact Nat.add_mul_mod_self_right _ _ _
+    have h2 : (x + 256 ^ n * 256 * k) / 256 = x / 256 + 256 ^ n * k := by
+      rw [Nat.mul_assoc, Nat.mul_comm 256 k, ← Nat.mul_assoc, Nat.add_mul_div_right _ _ (by decide)]
+    rw [h1, h2, ih]
+
+theorem beBytes_cons_limb {x : Nat} (xs : List Nat) (hx : x < B) :
+    beBytes (8 * (xs.length + 1)) (x + B * val xs) = beBytes (8 * xs.length) (val xs) ++ beBytes 8 x := by
+  unfold beBytes
+  have : 8 * (xs.length + 1) = 8 + 8 * xs.length := by ring
+  rw [this, leBytes_add, List.reverse_append]
+  congr 2
+  · rw [← B_eq_256, Nat.add_mul_div_left _ _ B_pos, Nat.div_eq_of_lt hx, Nat.zero_add]
+  · rw [B_eq_256, leBytes_add_mul]
+
+/-- the `HTON_LIMB_STORE` loop writes the big-endian image of the value -/
+theorem foldl_hton : ∀ (l : List Nat) (acc : List Nat), Limbs l →
+    l.foldl (fun buf x => beBytes 8 x ++ buf) acc = beBytes (8 * l.length) (val l) ++ acc := by
+  intro l
+  induction l with
+  | nil => intro acc _; simp [beBytes, leBytes]
+  | cons x xs ih =>
+    intro acc h
+    have ⟨hx, hxs⟩ := Limbs_cons.mp h
+    rw [List.foldl_cons, ih _ hxs, List.length_cons, val_cons, beBytes_cons_limb xs hx, List.append_assoc]
+
+theorem bitLen_le_64 {t : Nat} (h : t < B) : bitLen t ≤ 64 := bitLen_le_iff.mpr h
+
+/-- a list ending in `t`: split off the last element -/
+theorem exists_snoc_of_getLastD {l : List Nat} (h : l ≠ []) : ∃ init, l = init ++ [l.getLastD 0] := by
+  refine ⟨l.dropLast, ?_⟩
+  have := List.dropLast_concat_getLast h
+  rw [List.getLastD_eq_getLast?, List.getLast?_eq_some_getLast h]
+  simpa using this.symm
+
+theorem getLastD_take_getD {d : List Nat} {n : Nat} (hn : 0 < n) (h : n ≤ d.length) :
+    (d.take n).getLastD 0 = d.getD (n - 1) 0 := by
+  rw [List.getLastD_eq_getLast?, List.getLast?_eq_getElem?, List.getD_eq_getElem?_getD]
+  simp only [List.length_take, Nat.min_eq_left h, List.getElem?_take]
+  rw [if_pos (by omega)]
+
+/-- facts about the limbs covered by `SIZ` of a well-formed object with non-zero size -/
+theorem wf_limbs {z : Mpz} (h : z.WF) (hs : z.size ≠ 0) :
+    ∃ init top, z.limbs = init ++ [top] ∧ top ≠ 0 ∧ top < B ∧ Limbs init ∧ init.length + 1 = z.abssize := by
+  obtain ⟨hlen, hle, hlimbs, htop⟩ := h
+  have hn : 0 < z.abssize := by unfold Mpz.abssize; omega
+  have hne : z.limbs ≠ [] := by
+    intro he; have := congrArg List.length he
+    rw [Mpz.limbs, List.length_take, List.length_nil] at this; omega
+  obtain ⟨init, hi⟩ := exists_snoc_of_getLastD hne
+  have htl : z.limbs.getLastD 0 = z.d.getD (z.abssize - 1) 0 := getLastD_take_getD hn (by omega)
+  have hL : Limbs z.limbs := Limbs_take hlimbs _
+  rw [hi] at hL
+  have ⟨hLi, hLt⟩ := Limbs_append.mp hL
+  refine ⟨init, z.limbs.getLastD 0, hi, by rw [htl]; exact htop hs, ?_, hLi, ?_⟩
+  · exact hLt _ (by simp)
+  · have := congrArg List.length hi
+    simp [Mpz.limbs] at this; omega
+
+theorem out_raw_m_eq (z : Mpz) (h : z.WF) : out_raw_m z = outRawBytes z.toInt := by
+  by_cases hs : z.size = 0
+  · have h0 : z.toInt = 0 := by simp [Mpz.toInt, Mpz.limbs, Mpz.abssize, hs]
+    rw [h0]
+    simp [out_raw_m, outRawBytes, hs, byteLen_zero, beBytes, leBytes]
+  · obtain ⟨init, top, hlim, ht0, htB, hLi, hlen⟩ := wf_limbs h hs
+    have hn : z.size.natAbs = init.length + 1 := by unfold Mpz.abssize at hlen; omega
+    have hV : val z.limbs = val init + B ^ init.length * top := by rw [hlim, val_snoc]
+    have hVpos : 0 < val z.limbs := by
+      rw [hV]; have := Nat.pos_of_ne_zero ht0; have := pow_pos B_pos init.length; nlinarith
+    have hbl : bitLen (val z.limbs) = 64 * init.length + bitLen top := by rw [hlim]; exact bitLen_val_snoc hLi ht0
+    have hbt := bitLen_pos ht0
+    have hbt2 := bitLen_le_64 htB
+    have hL : Limbs z.limbs := by rw [hlim]; exact Limbs_append.mpr ⟨hLi, by intro x hx; simp at hx; omega⟩
+    have hzl : z.limbs.length = init.length + 1 := by rw [hlim]; simp
+    -- the value and its sign
+    have hnat : z.toInt.natAbs = val z.limbs := by unfold Mpz.toInt; split <;> simp
+    have hneg : z.toInt < 0 ↔ z.size < 0 := by
+      unfold Mpz.toInt; split
+      · constructor <;> intro _ <;> first | assumption | omega
+      · constructor <;> intro _ <;> omega
+    have hbyte : byteLen (val z.limbs) = 8 * (init.length + 1) - (64 - bitLen top) / 8 := by
+      unfold byteLen; rw [hbl]; omega
+    have hdrop : (beBytes (8 * (init.length + 1)) (val z.limbs)).drop ((64 - bitLen top) / 8)
+        = beBytes (byteLen (val z.limbs)) (val z.limbs) := by
+      have e : 8 * (init.length + 1) = byteLen (val z.limbs) + (64 - bitLen top) / 8 := by rw [hbyte]; omega
+      rw [e, beBytes_of_lt _ (lt_pow_byteLen _)]
+      simp
+    unfold out_raw_m outRawBytes
+    have hb : (z.size.natAbs * 64 + 7) / 8 = 8 * (init.length + 1) := by rw [hn]; omega
+    have hxp : z.d.take z.size.natAbs = z.limbs := rfl
+    simp only [hb, hxp, foldl_hton _ _ hL, hzl, List.append_nil, hnat]
+    have hne : (8 * (init.length + 1) ≠ 0) := by omega
+    simp only [hne, ne_eq, not_false_eq_true, if_true]
+    have hlast : z.limbs.getLastD 0 = top := by rw [hlim]; simp
+    rw [hlast]
+    unfold clz
+    rw [hdrop, ← hbyte]
+    by_cases hsz : z.size < 0
+    · have : ¬ z.size ≥ 0 := by omega
+      simp [this, hneg.mpr hsz]
+    · have h1 : z.size ≥ 0 := by omega
+      have h2 : ¬ z.toInt < 0 := fun hh => hsz (hneg.mp hh)
+      simp [h1, h2]
+
 end Mpir.Io
